@@ -117,6 +117,8 @@ class BaseClaim:
             claim['languages'] = self.langtags
         if 'locations' in claim:
             claim['locations'] = [l.to_dict() for l in self.locations]
+        if 'hash' in claim.get('thumbnail', {}):
+            claim['thumbnail']['hash'] = self.thumbnail.file_hash
         return claim
 
     def none_check(self, kwargs):
@@ -202,7 +204,7 @@ class Stream(BaseClaim):
                 claim['source']['hash'] = self.source.file_hash
             if 'sd_hash' in claim['source']:
                 claim['source']['sd_hash'] = self.source.sd_hash
-            elif 'bt_infohash' in claim['source']:
+            if 'bt_infohash' in claim['source']:
                 claim['source']['bt_infohash'] = self.source.bt_infohash
             if 'media_type' in claim['source']:
                 claim['stream_type'] = guess_stream_type(claim['source']['media_type'])
@@ -343,6 +345,8 @@ class Channel(BaseClaim):
     def to_dict(self):
         claim = super().to_dict()
         claim['public_key'] = self.public_key
+        if 'hash' in claim.get('cover', {}):
+            claim['cover']['hash'] = self.cover.file_hash
         if 'featured' in claim:
             claim['featured'] = self.featured.ids
         return claim
